@@ -161,17 +161,30 @@ def body_multi(case):
         fn = os.path.join(tmp, "many.h5")
         model = {}
         grids = [build(g) for g in case["grids"]]
-        for step, (pi, gi, ow) in enumerate(case["ops"]):
+        for step, op in enumerate(case["ops"]):
+            pi, gi, ow = op[:3]
+            twin = op[3] if len(op) > 3 else None
             path = MULTI_PATHS[pi % len(MULTI_PATHS)]
             g, data, axes = grids[gi % len(grids)]
+            names = list(case["grids"][gi % len(grids)]["names"])
             again = path in model
+            if twin and again:
+                # the table at this path is regenerated: same shape and axis names, other values and / or another dtype
+                # for the data and the axes (an integer table becomes a float table, float64 becomes float32 ...)
+                d_, a_, names = model[path]
+                data = (np.asarray(d_, dtype=np.float64) * 0.5 + 0.375).astype(TWIN_DTYPES[twin[0] % len(TWIN_DTYPES)])
+                axes = [(np.asarray(x, dtype=np.float64) * 1.5 + 0.25).astype(TWIN_DTYPES[twin[1] % len(TWIN_DTYPES)]) for x in a_]
+                g = NssGrid(data, axes, list(names))
+                labels.add("rewritten_same_shape")
+                if data.dtype != np.asarray(d_).dtype:
+                    labels.add("rewritten_same_shape_other_dtype")
             with quiet():
                 with cut(f"NssGrid.write(hdf5, path={path!r}{', overwrite=True' if again or ow else ''})"):
                     if again or ow:
                         g.write(fn, format="hdf5", path=path, overwrite=True)
                     else:
                         g.write(fn, format="hdf5", path=path)
-            model[path] = (data, axes, list(case["grids"][gi % len(grids)]["names"]))
+            model[path] = (data, axes, list(names))
             if again:
                 labels.add("path_overwritten")
             for p_, (d_, a_, n_) in model.items():
@@ -223,6 +236,7 @@ def body_multi(case):
     return labels
 
 
+TWIN_DTYPES = ["float64", "float32", "int64", "int32", "float16", "uint8"]
 MULTI_PATHS = ["/", "/a", "/a/b", "/a/b/c", "/tau_cdf", "/tau_cdf/v1", "/x y", "/A"]
 
 
@@ -486,13 +500,13 @@ SUBCHECKS = [
         st.fixed_dictionaries(
             {
                 "grids": st.lists(grid_case(float_only=True, min_side=2), min_size=1, max_size=3),
-                "ops": st.lists(st.tuples(st.integers(0, 7), st.integers(0, 2), st.booleans()).map(list), min_size=2, max_size=6),
+                "ops": st.lists(st.tuples(st.integers(0, 7), st.integers(0, 2), st.booleans(), st.one_of(st.none(), st.lists(st.integers(0, 5), min_size=2, max_size=2))).map(list), min_size=2, max_size=6),
             }
         ),
         body_multi,
         lambda labels: "several_grids_in_one_file" in labels and "path_overwritten" in labels,
         {"quick": 150, "thorough": 6000},
-        doc="model-based history on ONE HDF5 file: grids written at generated nested paths in generated order, rewritten with overwrite; after every write every stored grid reads back as last written (dict model); a slice written to HDF5 / FITS reads back as the slice",
+        doc="model-based history on ONE HDF5 file: grids written at generated nested paths in generated order, rewritten with overwrite (other grids, and the same table regenerated with the same shape but other values / dtypes); after every write every stored grid reads back as last written (dict model); a slice written to HDF5 / FITS reads back as the slice",
     ),
     SubCheck(
         "slice",
